@@ -36,6 +36,12 @@ JOLIET_MAX_UNITS = 64
 UDF_MAX_FIELD = 255
 # RRIP 4.1.4: one NM entry is 5 header bytes + name content, LEN is one byte.
 RR_NM_MAX_CONTENT = 255 - 5
+# SUSP 5.1: a CE entry is 28 bytes.  On a Rock Ridge image every record carries RRIP
+# entries (PX is mandatory, >= 36 bytes); they may all move to a continuation area, but
+# the CE entry that points there has to sit in the record itself.  So `system_use=
+# RR_MIN_SYSTEM_USE` is the least a record of a Rock Ridge image needs besides the
+# identifier (identifier <= 193 bytes).
+RR_MIN_SYSTEM_USE = 28
 
 VERSION_MIN = 1
 VERSION_MAX = 32767
